@@ -136,6 +136,10 @@ def statement_coverage():
         "10 A$ = LEFT$ ( B$ , 1 ) + RIGHT$ ( B$ , 2 ) + MID$ ( B$ , 1 , 2 )", "10 A$ = STRING$ ( 3 , B$ )",
         "10 A = INSTR ( 1 , B$ , C$ )", "10 A = &HFF + &H8000 + &HFFFFFF", "10 A = 1.5E3 + .5 - 1E-3",
         "10 A = ( B + C ) * ( D - E ) / F ^ G", "10 A = B < C", "10 A = - B",
+        # alternatives of the real grammar that nothing above exercises (found by bin/grammar_coverage)
+        "10 A = + B", "10 A = ATN ( B ) + COS ( B ) + EXP ( B ) + LOG ( B )", "10 A = SGN ( B ) + SIN ( B ) + TAN ( B )",
+        '10 ? @ 5 , "X"', "10 ? @ 5", '10 LET A$ ( 1 ) = "Y"', "10 DIM A$ ( 1 , 2 )", "10 DIM A$ ( 1 , 2 , 3 )",
+        '10 LET A$ ( 1 ) = "UNCLOSED', '10 LET A$ = "UNCLOSED', "10 A = B =< C", "10 A = B => C", '10 IF A$ =< "M" THEN 10',
     ]
     return progs
 
